@@ -37,6 +37,7 @@ RULE = (
 DECIDING = {
     "channels_checked": "(instance, attribute) channels exercised",
     "delivery_matrix_cells": "cells of the subscriber x channel delivery matrix compared",
+    "combined_stream_events": "events received by one stream subscribed to all channels at once",
     "layouts_two_signals_one_instance": "two signals on one instance (the user guide's example)",
     "layouts_inherited": "inherited or overriding declarations",
     "layouts_equal_instances": "distinct instances that compare equal",
@@ -150,10 +151,28 @@ async def scenario(case: dict[str, Any], out: dict[str, Any]) -> None:
                 ready[k].set()
                 bad("channel-subscribe-raised", f"subscribing to {k} raised {describe_exc(e)}")
 
+        combined: list[Any] = []
+        combined_ready = anyio.Event()
+
+        async def combined_subscriber() -> None:
+            # one stream over every channel at once: each channel is still its own channel
+            from asphalt.core import stream_events
+
+            try:
+                async with stream_events(list(bound.values()), max_queue_size=1000) as stream:
+                    combined_ready.set()
+                    async for ev in stream:
+                        combined.append(ev)
+            except Exception as e:
+                combined_ready.set()
+                bad("channel-subscribe-raised", f"one stream over all channels raised {describe_exc(e)}")
+
         for k in bound:
             tg.start_soon(subscriber, k)
+        tg.start_soon(combined_subscriber)
         for k in bound:
             await ready[k].wait()
+        await combined_ready.wait()
         sent: dict[tuple[int, str], Any] = {}
         for n, k in enumerate(bound):
             ev = attr_ev[k[1]](n)
@@ -170,6 +189,11 @@ async def scenario(case: dict[str, Any], out: dict[str, Any]) -> None:
                 bad("channel-topic", f"event dispatched on {k} carries topic {ev.topic!r}")
         await anyio.wait_all_tasks_blocked()
         tg.cancel_scope.cancel()
+    inc("combined_stream_events", len(combined))
+    if len(combined) != len(sent) or any(g is not e for g, e in zip(combined, sent.values())):
+        missing = [k for k, ev in sent.items() if not any(g is ev for g in combined)]
+        bad("channel-lost[combined-stream]", f"a single stream over all {len(bound)} channels received {len(combined)} of the {len(sent)} events; "
+                                             f"events of channels {missing} are missing or duplicated (owner kind {kind})")
     for k in bound:
         got = received[k]
         inc("delivery_matrix_cells", len(bound))
